@@ -18,7 +18,7 @@ import (
 const numCondPositions = 13
 
 // c02PosList: the condition positions of C02 (position 13 is C11's; 100 and 101 are the hosts other than a script statement)
-var c02PosList = []int{0, 1, 2, 3, 4, 5, 6, 7, 8, 9, 10, 11, 12, 14, 15, 16, 17, 100, 101}
+var c02PosList = []int{0, 1, 2, 3, 4, 5, 6, 7, 8, 9, 10, 11, 12, 14, 15, 16, 17, 18, 19, 100, 101}
 
 // condProgram places cond in condition position pos.
 func condProgram(cond *model.Cond, pos int) *model.Script {
@@ -52,6 +52,10 @@ func condProgram(cond *model.Cond, pos int) *model.Script {
 	case 14, 15, 16, 17: // the body is a single jump-like statement (where a compiler is tempted to fold test and jump into one command): call(EXT), goto(EXT), return, end
 		body := map[int]model.Stmt{14: {Kind: model.SCmd, Name: "call(EXT)", Out: "call EXT"}, 15: {Kind: model.SGoto, Name: "EXT"}, 16: {Kind: model.SReturn}, 17: {Kind: model.SEnd}}[pos]
 		st = model.Stmt{Kind: model.SIf, Arms: []model.Arm{{Cond: cond, Body: []model.Stmt{body}}}}
+	case 18: // last elif whose body is nothing but another if, with an else: when the elif condition holds and the inner one does not, nothing runs
+		st = model.Stmt{Kind: model.SIf, Arms: []model.Arm{{Cond: guard(1), Body: []model.Stmt{cmd("g1")}}, {Cond: cond, Body: []model.Stmt{{Kind: model.SIf, Arms: []model.Arm{{Cond: guard(2), Body: []model.Stmt{cmd("t")}}}}}}}, HasElse: true, Else: []model.Stmt{cmd("f")}}
+	case 19: // ... the same without elif before it
+		st = model.Stmt{Kind: model.SIf, Arms: []model.Arm{{Cond: cond, Body: []model.Stmt{{Kind: model.SIf, Arms: []model.Arm{{Cond: guard(2), Body: []model.Stmt{cmd("t")}}}}}}}, HasElse: true, Else: []model.Stmt{cmd("f")}}
 	case 7: // middle elif with an empty body, no else: the condition still guards the later elif
 		st = model.Stmt{Kind: model.SIf, Arms: []model.Arm{{Cond: guard(1), Body: []model.Stmt{cmd("g1")}}, {Cond: cond, Body: nil}, {Cond: guard(2), Body: []model.Stmt{cmd("g2")}}}}
 	case 8: // if with an empty body, then elif
@@ -388,7 +392,7 @@ func runC02(tier string) int {
 	r.Assume("the generator's own expression tree is the reference (no parsing on the oracle side); '!' > '&&' > '||', left to right, short-circuit",
 		"lockstep: each operand read (which flag/var/trainer, strict or not) is an observable event; the environment answers with the operand's value and each side applies its own relation")
 	return r.Finish(r.Get("evaluations"), r.Get("nontrivial"),
-		"every And/Or tree with k leaves x decorations (redundant parentheses / negations on any node, bounded count) x leaf-form assignments (all 34 forms - var against TRUE / FALSE included - exhaustively for k<=2, rotations beyond, shared-operand variants for k<=3 incl. the same var test written once plainly and once with value(), and one var compared with 1, 10 and 100) x 17 condition positions in a script (four of them an if whose body is a single call / goto / return / end), plus the if/else position in the second inline script of a mapscripts statement and in the second inline entry of a table (if, if/else, elif positions, while, do...while, branches with an empty body, and positions in which the first operand test of the expression is tested again in a neighbouring condition) x optimize on/off; plus AutoVar command leaves (3 command kinds x 9 forms, alone and inside an &&/|| expression) in files whose constants are named like the configured result vars; plus chains of K leaves for every K up to the bound in the coverage in 5 operator patterns; each case explored in lockstep over all operand values; non-trivial = at least 2 leaves")
+		"every And/Or tree with k leaves x decorations (redundant parentheses / negations on any node, bounded count) x leaf-form assignments (all 34 forms - var against TRUE / FALSE included - exhaustively for k<=2, rotations beyond, shared-operand variants for k<=3 incl. the same var test written once plainly and once with value(), and one var compared with 1, 10 and 100) x 19 condition positions in a script (four of them an if whose body is a single call / goto / return / end, two an if / elif whose body is nothing but another if, before an else), plus the if/else position in the second inline script of a mapscripts statement and in the second inline entry of a table (if, if/else, elif positions, while, do...while, branches with an empty body, and positions in which the first operand test of the expression is tested again in a neighbouring condition) x optimize on/off; plus AutoVar command leaves (3 command kinds x 9 forms, alone and inside an &&/|| expression) in files whose constants are named like the configured result vars; plus chains of K leaves for every K up to the bound in the coverage in 5 operator patterns; each case explored in lockstep over all operand values; non-trivial = at least 2 leaves")
 }
 
 // firstLeafCopy returns a fresh leaf condition equal to the first operand test evaluated by c (polarity as written in the leaf).
